@@ -332,7 +332,7 @@ func (c *Ctx) scopeOf(fn *ssa.Function) map[string]bool {
 			switch recvNamed(f) {
 			case c.A.ParserT.Obj().Name(), c.A.LexerT.Obj().Name(), c.A.SynErrT.Obj().Name():
 				pRoots = append(pRoots, f)
-			case c.A.InterpT.Obj().Name(), "functionCaller", c.A.FEntryT.Obj().Name(), c.A.ArgSpecT.Obj().Name():
+			case c.A.InterpT.Obj().Name(), c.A.FCallerT.Obj().Name(), c.A.FEntryT.Obj().Name(), c.A.ArgSpecT.Obj().Name():
 				eRoots = append(eRoots, f)
 			}
 			if f.Name() == "Less" || f.Name() == "Swap" || f.Name() == "Len" {
@@ -965,4 +965,101 @@ func isLatchValue(v ssa.Value, latchLoad ssa.Value, field int, obj ssa.Value) bo
 		}
 	}
 	return false
+}
+
+// allReturnsFail: starting on the edge prev -> S, where the error values in
+// known are non-nil, every reachable return of fn carries a non-nil error in
+// its error slot (path sensitive in the same way as E2: phis fed by a known
+// value are known, a nil test of a known value has one outcome). Returns ""
+// or what goes wrong. stop: blocks that end the walk (e.g. a loop header).
+func (c *Ctx) allReturnsFail(fn *ssa.Function, S, prev *ssa.BasicBlock, known map[ssa.Value]bool, stop map[*ssa.BasicBlock]bool) string {
+	errSlot := errIndex(fn.Signature)
+	if errSlot < 0 {
+		return "the function has no error result"
+	}
+	seen := map[string]bool{}
+	problem := ""
+	keyOf := func(k map[ssa.Value]bool) string {
+		var n []string
+		for v := range k {
+			n = append(n, v.Name())
+		}
+		sort.Strings(n)
+		return strings.Join(n, ",")
+	}
+	var walk func(b, prev *ssa.BasicBlock, known map[ssa.Value]bool)
+	walk = func(b, prev *ssa.BasicBlock, known map[ssa.Value]bool) {
+		if problem != "" {
+			return
+		}
+		if stop[b] {
+			problem = "the path continues the loop"
+			return
+		}
+		if prev != nil {
+			pi := -1
+			for i, pb := range b.Preds {
+				if pb == prev {
+					pi = i
+				}
+			}
+			k2 := known
+			copied := false
+			for _, in := range b.Instrs {
+				ph, ok := in.(*ssa.Phi)
+				if !ok {
+					break
+				}
+				isK := pi >= 0 && (known[ph.Edges[pi]] || neverNilError(c, ph.Edges[pi]))
+				if isK != k2[ph] {
+					if !copied {
+						k2 = map[ssa.Value]bool{}
+						for v := range known {
+							k2[v] = true
+						}
+						copied = true
+					}
+					if isK {
+						k2[ph] = true
+					} else {
+						delete(k2, ph)
+					}
+				}
+			}
+			known = k2
+		}
+		sk := fmt.Sprintf("%d|%s", b.Index, keyOf(known))
+		if seen[sk] {
+			return
+		}
+		seen[sk] = true
+		if ret := blockReturn(b); ret != nil {
+			v := retResults(ret)[errSlot]
+			if !(known[v] || neverNilError(c, v)) {
+				problem = "the return at " + c.pos(ret.Pos()) + " may report success"
+			}
+			return
+		}
+		if ifi := blockIf(b); ifi != nil {
+			if bo, ok := ifi.Cond.(*ssa.BinOp); ok && (bo.Op == token.NEQ || bo.Op == token.EQL) {
+				x, y := bo.X, bo.Y
+				if isNilConst(x) {
+					x, y = y, x
+				}
+				if isNilConst(y) && known[x] {
+					idx := 0
+					if bo.Op == token.EQL {
+						idx = 1
+					}
+					walk(b.Succs[idx], b, known)
+					return
+				}
+			}
+		}
+		for _, sc := range b.Succs {
+			walk(sc, b, known)
+		}
+	}
+	walk(S, prev, known)
+	return problem
 }
